@@ -192,25 +192,49 @@ def _bloch_rules(ctx):
         pad = it.call_function("fdtdx.core.misc.pad_fields", vec("E"), per)
         vol = (Rat.atom("Nx"), Rat.atom("Ny"), Rat.atom("Nz"))
         res = it.call_method(bl, "apply_pad_correction", pad, vol, Rat.atom("res"))
-        base = to_rat(pad.data[0])
-        got = to_rat(res.data[0])
         L = vol[axis] * Rat.atom("res")
         phase = apply_fn("exp", Rat.atom(I) * k[axis] * L)
         cphase = apply_fn("exp", -Rat.atom(I) * k[axis] * L)
-        inds = [a for a in got.atoms() if isinstance(a, tuple) and a and a[0] == "ind"]
-        ok = len(inds) == 1
-        if ok:
+        ok = okr = True
+        got = None
+        for comp in range(3):  # every component: the off-diagonal averages read the normal component's ghost too
+            base = to_rat(pad.data[comp])
+            got = to_rat(res.data[comp])
+            inds = [a for a in got.atoms() if isinstance(a, tuple) and a and a[0] == "ind"]
+            if len(inds) != 1:
+                ok = okr = False
+                break
             ind = Rat.atom(inds[0])
             fac = cphase if direction == "-" else phase
             want = base + ind * (base * fac - base)
-            ok = got.equals(want)
+            ok = ok and got.equals(want)
             # region: ghost index 0 for '-', -1 for '+', on padded axis `axis`
             key = inds[0][1][1]
             want_idx = "0" if direction == "-" else "-1"
-            okr = key[axis] == want_idx and all(isinstance(x, tuple) and x[0] == "slice" for i, x in enumerate(key) if i != axis)
-        else:
-            okr = False
-        ctx.ob("R1.5", f"BlochBoundary.apply_pad_correction:{axis}{direction}", ok and okr, "ghost cell 0 (min side) times conj(phase), ghost cell -1 (max side) times phase, phase = exp(i k L)", got.fmt()[:300], "base + 1[ghost]*(base*exp(-+ikL) - base)")
+            okr = okr and key[axis] == want_idx and all(isinstance(x, tuple) and x[0] == "slice" for i, x in enumerate(key) if i != axis)
+            if not (ok and okr):
+                break
+        ctx.ob("R1.5", f"BlochBoundary.apply_pad_correction:{axis}{direction}", ok and okr, "ghost cell 0 (min side) times conj(phase), ghost cell -1 (max side) times phase, phase = exp(i k L), for all three components", got.fmt()[:300] if got is not None else "", "base + 1[ghost]*(base*exp(-+ikL) - base)")
+        # resolved (stretched) grid: the period is the grid extent, not N * (smallest spacing), on both sides
+        it2 = ctx.fresh_interp()
+        sc2 = Scene(ix, it2)
+        from ..arrays import SymVec
+        from ..values import Builtin
+
+        grid2 = Obj(None, {"edges": Builtin("edges", lambda it_, a, k_: SymVec(f"edges{a[0] if a else k_.get('axis')}", Rat.atom("M")))}, "grid")
+        cfg2 = sc2.config(resolved_grid=grid2, has_nonuniform_grid=True)
+        bl2 = sc2.boundary(B.qualname, axis, direction, bloch_vector=k, _config=cfg2, needs_complex_fields=True)
+        pad2 = it2.call_function("fdtdx.core.misc.pad_fields", vec("E"), per)
+        res2 = it2.call_method(bl2, "apply_pad_correction", pad2, vol, Rat.atom("dmin"))
+        Lg = Rat.atom(("idx", f"edges{axis}", vol[axis])) - Rat.atom(("idx", f"edges{axis}", Rat.const(0)))
+        fac2 = apply_fn("exp", (-1 if direction == "-" else 1) * Rat.atom(I) * k[axis] * Lg)
+        okg = True
+        g2 = None
+        for comp in range(3):
+            base2, g2 = to_rat(pad2.data[comp]), to_rat(res2.data[comp])
+            inds2 = [a for a in g2.atoms() if isinstance(a, tuple) and a and a[0] == "ind"]
+            okg = okg and len(inds2) == 1 and g2.equals(base2 + Rat.atom(inds2[0]) * (base2 * fac2 - base2))
+        ctx.ob("R1.5", f"BlochBoundary.apply_pad_correction:{axis}{direction}:resolved-grid", okg, "on a resolved grid both ghost layers use the period edges[N] - edges[0] (min side the conjugate of the max side), not N times the spacing argument", g2.fmt()[:300] if g2 is not None else "", "base + 1[ghost]*(base*exp(-+ik(edges[N]-edges[0])) - base)")
     # no correction without a Bloch phase
     it = ctx.fresh_interp()
     sc = Scene(ix, it)
